@@ -313,6 +313,25 @@ func combGrid(c *Ctx) []combIn {
 		}
 		out = append(out, combIn{Op: "Rank", S: s})
 	}
+	// large, nearly full sets {0..a-1} + {a+g..a+g+h-1}: every term C(v, i+1) = C(v, g-1) is small enough to compute, but for g = 11, 12 the
+	// SUM passes the int range before the last term is added (Rank must then refuse, not return a wrapped value)
+	for _, a := range []int{20, 150, 290} {
+		for _, g := range []int{2, 6, 11, 12} {
+			for h := 1; h <= 8; h++ {
+				if a < 290 && h%3 != 1 {
+					continue
+				}
+				set := []string{}
+				for v := 0; v < a; v++ {
+					set = append(set, fmt.Sprint(v))
+				}
+				for v := a + g; v < a+g+h; v++ {
+					set = append(set, fmt.Sprint(v))
+				}
+				out = append(out, combIn{Op: "Rank", S: set})
+			}
+		}
+	}
 	out = append(out, combIn{Op: "Rank", S: []string{}})
 	out = append(out, combIn{Op: "Rank", S: []string{fmt.Sprint(int64(math.MaxInt64))}})
 	out = append(out, combIn{Op: "Rank", S: []string{"4294967296", "4294967297"}})
